@@ -1,6 +1,7 @@
 package main
 
 import (
+	"strings"
 	"fmt"
 	"go/constant"
 	"go/token"
@@ -8,6 +9,8 @@ import (
 
 	"golang.org/x/tools/go/ssa"
 )
+
+var profSteps map[*ssa.Function]int
 
 func (vm *VM) constVal(c *ssa.Const) Value {
 	t := c.Type()
@@ -98,6 +101,7 @@ func (vm *VM) initPackage(p *ssa.Package) {
 		return
 	}
 	if f := p.Func("init"); f != nil && f.Blocks != nil {
+		vm.forceInit = f
 		vm.call(f, nil, nil)
 	}
 }
@@ -112,6 +116,23 @@ func (vm *VM) call(fn *ssa.Function, args []Value, bindings []Value) (ret Value)
 	if fn.Blocks == nil {
 		unsupported("function without a body: %s", fn)
 	}
+	if fn == vm.forceInit {
+		vm.forceInit = nil
+	} else if fn.Pkg != nil && fn.Name() == "init" && fn.Synthetic != "" {
+		// package initialiser: only allow-listed packages are initialised (concretely), once per path
+		path := fn.Pkg.Pkg.Path()
+		if !initAllowed(path) {
+			return nil
+		}
+		if vm.inited[fn.Pkg] {
+			return nil
+		}
+		if vm.curFn != nil && !strings.HasPrefix(path, modPath) {
+			// dependency initialisers are run lazily, on first access to one of the package's globals
+			return nil
+		}
+		vm.inited[fn.Pkg] = true
+	}
 	vm.callDepth++
 	if vm.callDepth > 2000 {
 		panic(pathEnd{"budget", "call depth"})
@@ -122,6 +143,8 @@ func (vm *VM) call(fn *ssa.Function, args []Value, bindings []Value) (ret Value)
 	copy(fr.regs[len(fn.Params):], bindings)
 	saveFn := vm.curFn
 	vm.curFn = fn
+	vm.stack = append(vm.stack, fn)
+	sp := len(vm.stack)
 	if fi.hasDefer {
 		defer func() {
 			if r := recover(); r != nil {
@@ -138,6 +161,7 @@ func (vm *VM) call(fn *ssa.Function, args []Value, bindings []Value) (ret Value)
 				}
 				vm.callDepth--
 				vm.curFn = saveFn
+				vm.stack = vm.stack[:sp-1]
 				if fn.Recover != nil {
 					ret = vm.run(fr, fn.Recover)
 				} else {
@@ -149,6 +173,7 @@ func (vm *VM) call(fn *ssa.Function, args []Value, bindings []Value) (ret Value)
 	ret = vm.run(fr, fn.Blocks[0])
 	vm.callDepth--
 	vm.curFn = saveFn
+	vm.stack = vm.stack[:sp-1]
 	return ret
 }
 
@@ -263,6 +288,9 @@ func (vm *VM) run(fr *frame, b *ssa.BasicBlock) Value {
 			}
 		}
 		vm.steps += len(instrs)
+		if profSteps != nil {
+			profSteps[fr.fn] += len(instrs)
+		}
 		if vm.steps > vm.cfg.MaxSteps {
 			panic(pathEnd{"budget", "step budget exceeded at " + vm.where()})
 		}
@@ -280,6 +308,12 @@ func (vm *VM) run(fr *frame, b *ssa.BasicBlock) Value {
 				vm.set(fr, x, vm.invoke(fr, &x.Call, f, args))
 				vm.curFn = fr.fn
 			case *ssa.FieldAddr:
+				st0 := x.X.Type().Underlying().(*types.Pointer).Elem().Underlying().(*types.Struct)
+				if sp, ok := vm.get(fr, x.X).(SymPtr); ok {
+					sp.off += vm.fieldOffsets(st0)[x.Field]
+					vm.set(fr, x, sp)
+					break
+				}
 				p := vm.get(fr, x.X).(Ptr)
 				if p.obj == nil {
 					vm.goPanicf("nil pointer dereference (field %d)", x.Field)
@@ -293,6 +327,10 @@ func (vm *VM) run(fr *frame, b *ssa.BasicBlock) Value {
 			case *ssa.Index:
 				vm.set(fr, x, vm.index(fr, x))
 			case *ssa.Store:
+				if sp, ok := vm.get(fr, x.Addr).(SymPtr); ok {
+					vm.symStore(sp, vm.get(fr, x.Val), x.Val.Type())
+					break
+				}
 				p := vm.get(fr, x.Addr).(Ptr)
 				if p.obj == nil {
 					vm.goPanicf("nil pointer dereference (store)")
@@ -521,6 +559,9 @@ func (vm *VM) unop(fr *frame, x *ssa.UnOp) Value {
 	v := vm.get(fr, x.X)
 	switch x.Op {
 	case token.MUL:
+		if sp, ok := v.(SymPtr); ok {
+			return vm.symLoad(sp, x.Type())
+		}
 		p := v.(Ptr)
 		if p.obj == nil {
 			vm.goPanicf("nil pointer dereference (load)")
@@ -677,19 +718,38 @@ func (vm *VM) indexAddr(fr *frame, x *ssa.IndexAddr) Value {
 		if bs.symLen != nil {
 			unsupported("element access on a length-only slice")
 		}
-		es := sizeof(x.X.Type().Underlying().(*types.Slice).Elem())
+		et := x.X.Type().Underlying().(*types.Slice).Elem()
+		es := sizeof(et)
+		if idx.op != OpConst && scalarOnly(et) && bs.len > 1 {
+			if !vm.decide(vm.ts.Ult(idx, vm.ts.BV(64, uint64(bs.len)))) {
+				vm.goPanicf("index out of range [symbolic] with length %d", bs.len)
+			}
+			return SymPtr{obj: bs.obj, off: bs.off, idx: idx, stride: es, n: bs.len}
+		}
 		i := vm.boundedIndex(idx, bs.len)
 		return Ptr{bs.obj, bs.off + i*es}
+	case SymPtr:
+		return vm.indexAddrArr(vm.concretePtr(bs), idx, x)
 	case Ptr:
-		if bs.obj == nil {
-			vm.goPanicf("nil pointer dereference (index)")
-		}
-		at := x.X.Type().Underlying().(*types.Pointer).Elem().Underlying().(*types.Array)
-		i := vm.boundedIndex(idx, int(at.Len()))
-		return Ptr{bs.obj, bs.off + i*sizeof(at.Elem())}
+		return vm.indexAddrArr(bs, idx, x)
 	}
 	unsupported("IndexAddr on %T", base)
 	return nil
+}
+
+func (vm *VM) indexAddrArr(bs Ptr, idx *Term, x *ssa.IndexAddr) Value {
+	if bs.obj == nil {
+		vm.goPanicf("nil pointer dereference (index)")
+	}
+	at := x.X.Type().Underlying().(*types.Pointer).Elem().Underlying().(*types.Array)
+	if idx.op != OpConst && scalarOnly(at.Elem()) && at.Len() > 1 {
+		if !vm.decide(vm.ts.Ult(idx, vm.ts.BV(64, uint64(at.Len())))) {
+			vm.goPanicf("index out of range [symbolic] with length %d", at.Len())
+		}
+		return SymPtr{obj: bs.obj, off: bs.off, idx: idx, stride: sizeof(at.Elem()), n: int(at.Len())}
+	}
+	i := vm.boundedIndex(idx, int(at.Len()))
+	return Ptr{bs.obj, bs.off + i*sizeof(at.Elem())}
 }
 
 func (vm *VM) index(fr *frame, x *ssa.Index) Value {
